@@ -1,19 +1,21 @@
 import json, os, shutil, subprocess
 
 SPEC = {
-    "lean_modules": ["SemaModel.C01.Props"],
+    "lean_modules": ["SemaModel.C01.Props", "SemaModel.C01.Tie"],
     "lean_dirs": ["SemaModel/C01"],
     "harness": "c01",
     "harness_args": {"quick": ["-hist", 500, "-batches", 10], "thorough": ["-hist", 4000, "-batches", 14, "-thorough"]},
     "timeout": {"quick": 900, "thorough": 3000},
     "level": "proof",
-    "tie": "T3: random histories of insert/update/delete batches on a real shard (bbolt file and memory backend, index schemas none / string+integer+float+stringArray+nested string / text+string / flat vector+integer / vamana vector+string) are replayed line by line on the Lean model; compared after every batch: the batch result, the full points and internal buckets in the model's symbolic keys (through Shard.VerifDB), the select-all read of the whole id pool, Info().PointCount and two reads by id (answered by the Lean *spec*). The oracles of the model (free-id order, delete iteration order) are read back from the implementation. T2: tools/facts_c01 pins DELETEVALUE, the start value of the id counter, the bodies of IdCounter.NextId / FreeId and that count and counter are written after the pipeline's error check.",
+    "tie": "T3: random histories of insert/update/delete batches on a real shard (bbolt file and memory backend, index schemas none / string+integer+float+stringArray+nested string / text+string / flat vector+integer / vamana vector+string) are replayed line by line on the Lean model; compared after every batch: the batch result, the full points and internal buckets in the model's symbolic keys (through Shard.VerifDB), the select-all read of the whole id pool, Info().PointCount and two reads by id (answered by the Lean *spec*). The oracles of the model (free-id order, delete iteration order) are read back from the implementation. T2: tools/facts_c01 pins DELETEVALUE, the start value of the id counter, the bodies of IdCounter.NextId / FreeId and that count and counter are written after the pipeline's error check. T1: IdCounter.NextId / FreeId / MaxId are translated from shard/idcounter.go on every run (Generated/IdCounter.lean) and C01_tie_nextId / C01_tie_freeId prove that the model's Ctr.nextId / Ctr.freeId compute the same (ids as toNat; no wrap of nextFreeId++); changePointCount is translated with the bucket as Base/KV.lean (Generated/PointCount.lean) and C01_tie_count_add / C01_tie_count_sub prove the model's count arithmetic (countV + n; reject when countV < k, else countV - k).",
     "required_theorems": [
         "Sema.C01.C01_step", "Sema.C01.C01_run", "Sema.C01.C01_history",
         "Sema.C01.C01_read", "Sema.C01.C01_read_all",
         "Sema.C01.C01_merge", "Sema.C01.C01_insert_ok", "Sema.C01.C01_insert_rejected",
         "Sema.C01.C01_update_reports", "Sema.C01.C01_update_ids", "Sema.C01.C01_delete_reports",
         "Sema.C01.C01_setPoint_delete_noop",
+        "Sema.C01.C01_tie_nextId", "Sema.C01.C01_tie_freeId", "Sema.C01.C01_tie_maxId",
+        "Sema.C01.C01_tie_count_add", "Sema.C01.C01_tie_count_sub",
     ],
     "trusted_base": [
         "SemaModel/C01/Model.lean is a hand transcription of Shard.InsertPoints/UpdatePoints/DeletePoints, pointstore.SetPoint/DeletePoint/GetPointByUUID/GetPointByNodeId, IdCounter, changePointCount and the _id branch of SearchPoints; tied to the code by the correspondence only (plus the facts of tools/facts_c01)",
